@@ -16,8 +16,9 @@ def latest():
     for ln in open(os.path.join(RES, 'SUMMARY')):
         m = re.match(r'(C\d+) (\w) tests=\[(.*?)\] demo_with=(\d+) demo_without=(\d+) check_exit=(\d+)', ln)
         if m:
+            hist = out.get((m.group(1), m.group(2)), {}).get('history', [])
             out[(m.group(1), m.group(2))] = {'tests': m.group(3), 'demo_with': int(m.group(4)), 'demo_without': int(m.group(5)),
-                                             'check_exit': int(m.group(6))}
+                                             'check_exit': int(m.group(6)), 'history': hist + [int(m.group(6))]}
     return out
 
 
@@ -65,6 +66,9 @@ def main():
                 'command': f'VP_REPO=<worktree with the change> /venv/bin/python /verif/vp_check.py --property {pid} --tier quick',
                 'exit': r['check_exit'],
                 'detected': r['check_exit'] == 1,
+                'history_of_check_exits': r['history'],
+                'note': ('first run missed it (exit 0); the check was strengthened and then reported it' if (r['history'][0] == 0 and r['check_exit'] == 1)
+                         else ''),
                 'output_excerpt': viol,
             },
         }
